@@ -330,6 +330,7 @@ def run_config(unit, cfgname, workdir, tier='quick', mutate=None, want_trace=Fal
                 res.status, res.reason = 'inconclusive', 'extraction broke: unwind_loops names missing loop ' + lab
                 return res
             us.append('%s.%d:%s' % (sp.meta.get('cname'), ids[lab], k))
+        us += [x for x in cfg.get('unwindset_gi_raw', '').replace(',', ' ').split()]
         a2 = os.path.join(workdir, tag + '.u.gb')
         gu = 'goto-instrument --unwindset %s --unwinding-assertions %s %s' % (','.join(us), a, a2)
         rc, out, err, dt = sh(gu, 300)
